@@ -47,6 +47,9 @@ def sut():
         f = os.path.abspath(hypergraphx.__file__)
         if not f.startswith(REPO + os.sep):
             raise HarnessError(f"hypergraphx resolves to {f}, expected under {REPO}")
+        import logging
+
+        logging.disable(logging.CRITICAL)  # the library logs warnings through the root logger
         _SUT_READY = True
     import hypergraphx
 
